@@ -26,23 +26,33 @@ Proof.
 Qed.
 
 (* ---------- the loop ---------- *)
-Lemma run_from2 : forall l cur, fold_left step l (2, cur) = (2, cur).
-Proof. induction l; intro cur; simpl; [reflexivity | apply IHl]. Qed.
-
-Definition homog (cur : triple) (l : list gv) : bool :=
-  forallb (fun y => triple_eqb cur (triple_of (type_of y))) l.
-
-Lemma run_from1 : forall l cur,
-  fold_left step l (1, cur) = ((if homog cur l then 1 else 2), cur).
+Lemma gty_eqb_sym : forall a b, gty_eqb a b = gty_eqb b a.
 Proof.
-  induction l; intro cur; simpl; [reflexivity|].
-  destruct (triple_eqb cur (triple_of (type_of a))) eqn:E; simpl.
-  - apply IHl.
-  - apply run_from2.
+  intros a b. destruct (gty_eqb a b) eqn:E.
+  - apply gty_eqb_eq in E. subst. symmetry. apply gty_eqb_refl.
+  - destruct (gty_eqb b a) eqn:E'; [|reflexivity]. apply gty_eqb_eq in E'. subst.
+    rewrite gty_eqb_refl in E. discriminate.
+Qed.
+
+Lemma run_from2 : forall l cur first, fold_left step l (2, cur, first) = (2, cur, first).
+Proof. induction l; intros cur first; simpl; [reflexivity | apply IHl]. Qed.
+
+(* every later element has the type of the first one *)
+Definition same_as (T : gty) (l : list gv) : bool := forallb (fun y => gty_eqb T (type_of y)) l.
+
+Lemma run_from1 : forall l T,
+  fold_left step l (1, triple_of T, T) = ((if same_as T l then 1 else 2), triple_of T, T).
+Proof.
+  induction l; intro T; simpl; [reflexivity|].
+  destruct (gty_eqb T (type_of a)) eqn:E; simpl.
+  - apply gty_eqb_eq in E. rewrite <- E.
+    assert (R : triple_eqb (triple_of T) (triple_of T) = true) by (apply triple_eqb_eq; reflexivity).
+    rewrite R. simpl. apply IHl.
+  - rewrite andb_false_r. simpl. apply run_from2.
 Qed.
 
 Lemma run_cons : forall x l,
-  run (x :: l) = ((if homog (triple_of (type_of x)) l then 1 else 2), triple_of (type_of x)).
+  run (x :: l) = ((if same_as (type_of x) l then 1 else 2), triple_of (type_of x), type_of x).
 Proof. intros x l. unfold run. simpl. apply run_from1. Qed.
 
 Lemma last_type_all : forall l T, l <> [] -> Forall (fun y => type_of y = T) l -> last_type l = T.
@@ -50,12 +60,6 @@ Proof.
   unfold last_type. induction l; intros T Hn H; [congruence|].
   inversion H; subst. destruct l; [reflexivity|].
   change (type_of (last (g :: l) XNil) = type_of a). apply IHl; [discriminate | assumption].
-Qed.
-
-Lemma last_in : forall (l : list gv) d, l <> [] -> In (last l d) l.
-Proof.
-  induction l; intros d H; [congruence|]. destruct l; [left; reflexivity|].
-  right. apply IHl. discriminate.
 Qed.
 
 Lemma kind20 : forall t, fst (fst (triple_of t)) = 20 -> t = TIface.
@@ -68,147 +72,65 @@ Proof.
   split; intros H x Hx; [apply gty_eqb_eq | apply gty_eqb_eq]; apply H; assumption.
 Qed.
 
-Lemma homog_of_types : forall l T, Forall (fun y => type_of y = T) l -> homog (triple_of T) l = true.
+Lemma same_as_flip : forall T l, same_as T l = forallb (fun y => gty_eqb (type_of y) T) l.
 Proof.
-  intros l T H. unfold homog. apply forallb_forall. intros x Hx.
-  rewrite Forall_forall in H. rewrite (H x Hx). apply triple_eqb_eq. reflexivity.
+  intros T l. unfold same_as. induction l; simpl; [reflexivity|].
+  rewrite IHl. rewrite (gty_eqb_sym T (type_of a)). reflexivity.
 Qed.
+
+(* EXPORT OF AN ARRAY ALWAYS RETURNS, AND RETURNS WHAT THE RULE PRESCRIBES: []T when the array is not
+   empty and every element exports to the same Go type T, []interface{} otherwise.  In particular the
+   Set of the elements into the typed slice (reflect's assignability check) never fails. *)
+Theorem finish_total : forall l, finish l = Ok (finish_spec l).
+Proof.
+  intro l. destruct l as [|x r]; [reflexivity|].
+  unfold finish. rewrite run_cons.
+  unfold finish_spec, all_same_type.
+  rewrite <- (same_as_flip (type_of x) r).
+  destruct (triple_of (type_of x)) as [[kind kk] ek] eqn:Etr.
+  destruct (same_as (type_of x) r) eqn:S.
+  - (* all of one type *)
+    assert (Hall : Forall (fun y => type_of y = type_of x) (x :: r)).
+    { constructor; [reflexivity|]. apply forallb_types. rewrite <- same_as_flip. assumption. }
+    rewrite (last_type_all (x :: r) (type_of x)); [|discriminate|assumption].
+    change (negb (1 =? 1)) with false. simpl orb.
+    destruct (gty_eqb (type_of x) TNil) eqn:N.
+    + rewrite orb_true_r. reflexivity.
+    + rewrite orb_false_r. simpl negb. simpl andb.
+      destruct (kind =? 20) eqn:K.
+      * apply Z.eqb_eq in K. subst kind.
+        assert (E : type_of x = TIface) by (apply kind20; rewrite Etr; reflexivity).
+        rewrite E. reflexivity.
+      * assert (F : forallb (fun x0 => gty_eqb (type_of x0) (type_of x)) (x :: r) = true)
+          by (apply forallb_types; assumption).
+        rewrite F. reflexivity.
+  - change (negb (2 =? 1)) with true. simpl orb. rewrite andb_false_r. reflexivity.
+Qed.
+
+Corollary finish_agrees_spec : forall l r, finish l = Ok r -> r = finish_spec l.
+Proof. intros l r H. rewrite finish_total in H. inversion H. reflexivity. Qed.
+
+Corollary finish_never_panics : forall l, finish l <> Panic.
+Proof. intros l H. rewrite finish_total in H. discriminate. Qed.
 
 (* THE TYPED-SLICE RULE: the result is []T (T a concrete type) exactly when the array is
    not empty, T is not the nil type and every element exports to the Go type T *)
 Theorem finish_typed_iff : forall l T, T <> TIface ->
   (finish l = Ok (XSlice T l) <-> l <> [] /\ T <> TNil /\ Forall (fun y => type_of y = T) l).
 Proof.
-  intros l T HT. split.
-  - intro H. destruct l as [|x r].
-    + vm_compute in H. inversion H. congruence.
-    + unfold finish in H. rewrite run_cons in H.
-      destruct (triple_of (type_of x)) as [[kind kk] ek] eqn:Etr.
-      destruct (negb ((if homog (kind, kk, ek) r then 1 else 2) =? 1) || (kind =? 20)
-                || gty_eqb (last_type (x :: r)) TNil) eqn:B.
-      * inversion H. congruence.
-      * destruct (forallb (fun x0 => gty_eqb (type_of x0) (last_type (x :: r))) (x :: r)) eqn:F; [|discriminate].
-        inversion H; subst. split; [discriminate|]. split.
-        -- intro E. rewrite E in B. rewrite gty_eqb_refl in B. rewrite orb_true_r in B. discriminate.
-        -- apply forallb_types. assumption.
-  - intros (Hn & HT' & Hall). destruct l as [|x r]; [congruence|].
-    unfold finish. rewrite run_cons.
-    assert (Hx : type_of x = T) by (inversion Hall; assumption).
-    assert (Hr : Forall (fun y => type_of y = T) r) by (inversion Hall; assumption).
-    rewrite Hx. rewrite (homog_of_types r T Hr).
-    destruct (triple_of T) as [[kind kk] ek] eqn:Etr.
-    rewrite (last_type_all (x :: r) T Hn Hall).
-    assert (Hk : (kind =? 20) = false).
-    { apply Z.eqb_neq. intro E. apply HT. apply kind20. rewrite Etr. exact E. }
-    assert (Hnil : gty_eqb T TNil = false).
-    { destruct (gty_eqb T TNil) eqn:E; [apply gty_eqb_eq in E; congruence | reflexivity]. }
-    rewrite Hk, Hnil. simpl negb. simpl orb.
-    assert (F : forallb (fun x0 => gty_eqb (type_of x0) T) (x :: r) = true) by (apply forallb_types; assumption).
-    rewrite F. reflexivity.
-Qed.
-
-(* whenever Export returns, it returns what the rule asks for *)
-Theorem finish_agrees_spec : forall l r, finish l = Ok r -> r = finish_spec l.
-Proof.
-  intros l r H. destruct l as [|x rest].
-  - vm_compute in H. inversion H. reflexivity.
-  - unfold finish in H. rewrite run_cons in H.
-    destruct (triple_of (type_of x)) as [[kind kk] ek] eqn:Etr.
-    destruct (negb ((if homog (kind, kk, ek) rest then 1 else 2) =? 1) || (kind =? 20)
-              || gty_eqb (last_type (x :: rest)) TNil) eqn:B.
-    + inversion H; subst. unfold finish_spec, all_same_type.
-      destruct (negb (gty_eqb (type_of x) TNil) && forallb (fun y => gty_eqb (type_of y) (type_of x)) rest) eqn:S;
-        [|reflexivity].
-      apply andb_true_iff in S. destruct S as [S1 S2].
-      destruct (gty_eqb (type_of x) TIface) eqn:EI; [apply gty_eqb_eq in EI; rewrite EI; reflexivity|].
-      exfalso.
-      assert (Hall : Forall (fun y => type_of y = type_of x) (x :: rest)).
-      { constructor; [reflexivity | apply forallb_types; assumption]. }
-      assert (Hh : homog (kind, kk, ek) rest = true).
-      { rewrite <- Etr. apply homog_of_types. inversion Hall; assumption. }
-      rewrite Hh in B. simpl in B.
-      rewrite (last_type_all (x :: rest) (type_of x)) in B; [|discriminate|assumption].
-      apply negb_true_iff in S1. rewrite S1 in B. rewrite orb_false_r in B.
-      apply Z.eqb_eq in B. subst kind.
-      assert (type_of x = TIface) by (apply kind20; rewrite Etr; reflexivity).
-      rewrite H0 in EI. simpl in EI. discriminate.
-    + destruct (forallb (fun x0 => gty_eqb (type_of x0) (last_type (x :: rest))) (x :: rest)) eqn:F; [|discriminate].
-      inversion H; subst. unfold finish_spec, all_same_type.
-      apply forallb_types in F.
-      assert (Hx : type_of x = last_type (x :: rest)) by (inversion F; assumption).
-      assert (Hr : Forall (fun y => type_of y = last_type (x :: rest)) rest) by (inversion F; assumption).
-      apply orb_false_iff in B. destruct B as [_ B].
-      rewrite Hx. rewrite B. simpl negb. simpl andb.
-      apply forallb_types in Hr. rewrite Hr. reflexivity.
-Qed.
-
-(* Export panics only on two elements that agree in their kind triple and differ in type *)
-Theorem finish_panic_only : forall l, finish l = Panic ->
-  exists a b, In a l /\ In b l /\ triple_of (type_of a) = triple_of (type_of b) /\ type_of a <> type_of b.
-Proof.
-  intros l H. destruct l as [|x rest]; [vm_compute in H; discriminate|].
-  unfold finish in H. rewrite run_cons in H.
-  destruct (triple_of (type_of x)) as [[kind kk] ek] eqn:Etr.
-  destruct (negb ((if homog (kind, kk, ek) rest then 1 else 2) =? 1) || (kind =? 20)
-            || gty_eqb (last_type (x :: rest)) TNil) eqn:B; [discriminate|].
-  destruct (forallb (fun x0 => gty_eqb (type_of x0) (last_type (x :: rest))) (x :: rest)) eqn:F; [discriminate|].
-  apply orb_false_iff in B. destruct B as [B _]. apply orb_false_iff in B. destruct B as [B _].
-  destruct (homog (kind, kk, ek) rest) eqn:Hh; [|simpl in B; discriminate].
-  assert (Hex : exists y, In y (x :: rest) /\ gty_eqb (type_of y) (last_type (x :: rest)) = false).
-  { clear -F. induction (x :: rest) as [|a l IH] in F |- *; [simpl in F; discriminate|].
-    simpl in F. apply andb_false_iff in F.
-    generalize dependent (last_type (a :: l)). intros t F.
-    destruct F as [F|F].
-    - exists a. split; [left; reflexivity | assumption].
-    - assert (E : exists y, In y l /\ gty_eqb (type_of y) t = false).
-      { clear -F. induction l; [simpl in F; discriminate|]. simpl in F. apply andb_false_iff in F.
-        destruct F as [F|F]; [exists a; split; [left; reflexivity|assumption]|].
-        destruct (IHl F) as (y & Hy & Hy'). exists y. split; [right; assumption | assumption]. }
-      destruct E as (y & Hy & Hy'). exists y. split; [right; assumption | assumption]. }
-  destruct Hex as (y & Hy & Hne).
-  exists y, (last (x :: rest) XNil). split; [assumption|]. split; [apply last_in; discriminate|].
-  assert (Htr : forall z, In z (x :: rest) -> triple_of (type_of z) = (kind, kk, ek)).
-  { intros z [<-|Hz]; [assumption|]. unfold homog in Hh. rewrite forallb_forall in Hh.
-    symmetry. apply triple_eqb_eq. apply Hh. assumption. }
-  split.
-  - rewrite (Htr y Hy). rewrite (Htr _ (last_in (x :: rest) XNil ltac:(discriminate))). reflexivity.
-  - intro E. unfold last_type in Hne. rewrite E in Hne. rewrite gty_eqb_refl in Hne. discriminate.
-Qed.
-
-(* for slices at most one level deep (and every scalar and map) the triple determines the type,
-   so arrays whose elements are scalars, objects or arrays of scalars never panic *)
-Definition shallow (t : gty) : bool :=
-  match t with TSlice (TSlice _) => false | _ => true end.
-
-Lemma kind_of_inj : forall a b, kind_of a = kind_of b ->
-  (forall e, a <> TSlice e) -> (forall e, b <> TSlice e) -> a = b.
-Proof.
-  intros a b H Ha Hb.
-  destruct a; try (exfalso; eapply Ha; reflexivity);
-  destruct b; try (exfalso; eapply Hb; reflexivity); simpl in H; try reflexivity; try discriminate;
-    try (destruct k; discriminate).
-  destruct k, k0; try discriminate; reflexivity.
-Qed.
-
-Lemma triple_shallow_inj : forall a b, shallow a = true -> shallow b = true ->
-  triple_of a = triple_of b -> a = b.
-Proof.
-  intros a b Sa Sb H.
-  destruct a; destruct b; simpl in H; try reflexivity; try discriminate;
-    try (destruct k; discriminate); try (inversion H; fail).
-  - destruct k, k0; try discriminate; reflexivity.
-  - inversion H. f_equal. apply kind_of_inj; [assumption | |].
-    + intros e E. subst a. simpl in Sa. discriminate.
-    + intros e E. subst b. simpl in Sb. discriminate.
-Qed.
-
-Theorem finish_shallow_total : forall l,
-  Forall (fun y => shallow (type_of y) = true) l -> finish l = Ok (finish_spec l).
-Proof.
-  intros l Hs. destruct (finish l) eqn:E.
-  - f_equal. apply finish_agrees_spec. assumption.
-  - exfalso. destruct (finish_panic_only l E) as (a & b & Ha & Hb & Htr & Hne).
-    rewrite Forall_forall in Hs. apply Hne. apply triple_shallow_inj; auto.
+  intros l T HT. rewrite finish_total. unfold finish_spec, all_same_type. split.
+  - intro H. destruct l as [|x r]; [inversion H; congruence|].
+    destruct (negb (gty_eqb (type_of x) TNil) && forallb (fun y => gty_eqb (type_of y) (type_of x)) r) eqn:S.
+    + inversion H; subst. apply andb_true_iff in S. destruct S as [S1 S2].
+      split; [discriminate|]. split.
+      * intro E. rewrite E in S1. simpl in S1. discriminate.
+      * constructor; [reflexivity | apply forallb_types; assumption].
+    + inversion H. congruence.
+  - intros (Hn & HN & Hall). destruct l as [|x r]; [congruence|].
+    inversion Hall as [|? ? Hx Hr]; subst.
+    assert (N : gty_eqb (type_of x) TNil = false).
+    { destruct (gty_eqb (type_of x) TNil) eqn:E; [apply gty_eqb_eq in E; congruence | reflexivity]. }
+    rewrite N. apply forallb_types in Hr. rewrite Hr. reflexivity.
 Qed.
 
 (* ---------- the whole tree ---------- *)
@@ -254,7 +176,7 @@ End jv_induction.
 Lemma finish_proj : forall ys r, finish ys = Ok r -> proj_gv r = PArr (map proj_gv ys).
 Proof.
   intros ys r H. unfold finish in H.
-  destruct (run ys) as [state [[kind kk] ek]].
+  destruct (run ys) as [[state [[kind kk] ek]] first].
   destruct (negb (state =? 1) || (kind =? 20) || gty_eqb (last_type ys) TNil).
   - inversion H. reflexivity.
   - destruct (forallb (fun x => gty_eqb (type_of x) (last_type ys)) ys); [|discriminate].
@@ -303,4 +225,42 @@ Proof.
       simpl in G2. inversion G2; subst. simpl. f_equal.
       * f_equal. apply Ho; assumption.
       * apply IHl; [assumption | assumption | reflexivity].
+Qed.
+
+(* Export never panics, whatever the script data *)
+Theorem export_total : forall v, exists r, export_m v = Ok r.
+Proof.
+  induction v using jv_ind2; try (eexists; reflexivity).
+  - (* arrays *)
+    assert (G : exists ys, (fix go (l : list (option jv)) : res (list gv) :=
+               match l with
+               | [] => Ok []
+               | None :: r => go r
+               | Some x :: r => bind (export_m x) (fun y => bind (go r) (fun ys => Ok (y :: ys)))
+               end) l = Ok ys).
+    { induction l as [|o rest IHl]; [eexists; reflexivity|].
+      inversion H as [|? ? Ho Hrest]; subst. destruct (IHl Hrest) as [ys Hys].
+      destruct o as [x|]; [|exists ys; assumption].
+      destruct Ho as [y Hy]. exists (y :: ys). rewrite Hy. simpl. rewrite Hys. reflexivity. }
+    destruct G as [ys Hys]. exists (finish_spec ys). simpl. rewrite Hys. simpl. apply finish_total.
+  - (* objects *)
+    assert (G : exists ys, (fix go (l : list (list Z * jv)) : res (list (list Z * gv)) :=
+               match l with
+               | [] => Ok []
+               | (k, JUndef) :: r => go r
+               | (k, x) :: r => bind (export_m x) (fun y => bind (go r) (fun ys => Ok ((k, y) :: ys)))
+               end) l = Ok ys).
+    { induction l as [|[k x] rest IHl]; [eexists; reflexivity|].
+      inversion H as [|? ? Ho Hrest]; subst. destruct (IHl Hrest) as [ys Hys].
+      destruct Ho as [y Hy]. simpl in Hy.
+      destruct x; try (exists ((k, y) :: ys); rewrite Hy; simpl; rewrite Hys; reflexivity).
+      exists ys. assumption. }
+    destruct G as [ys Hys]. exists (XMap ys). simpl. rewrite Hys. reflexivity.
+Qed.
+
+Corollary export_jsonlike_total : forall v, jsonlike v = true ->
+  exists r, export_m v = Ok r /\ proj_gv r = proj_jv v.
+Proof.
+  intros v HJ. destruct (export_total v) as [r Hr]. exists r. split; [assumption|].
+  apply export_jsonlike; assumption.
 Qed.
